@@ -1760,12 +1760,28 @@ where
             }
         }
         inputs.push(("unconstrained", (0..n).map(|_| gen_pair::<T>(rng)).collect()));
+        // (added after seeded changes C20_P / C20_Q) the SAME OBJECT on both sides: `m.relative_eq(&m, ..)`, a slice
+        // compared pairwise including i == j, a cache compared with itself.  An element is not approximately equal
+        // to itself when it is a NaN (all three relations), an infinity (abs_diff_eq: inf - inf is NaN) or when the
+        // epsilon is negative / NaN, and the container must say so; a bit-equal *copy* is the other member of the
+        // class.  One lane is forced to NaN / +inf / -inf in three cases out of four.
+        for same in ["same_object", "bit_equal_copy"] {
+            let mut v: Vec<(T, T)> = (0..n).map(|_| { let q = gen_pair::<T>(rng); (q.0, q.0) }).collect();
+            let special = [T::nan(), T::infinity(), T::neg_infinity()];
+            let k = rng.usize_below(4);
+            if k < 3 {
+                let pos = rng.usize_below(n);
+                v[pos] = (special[k], special[k]);
+            }
+            inputs.push((same, v));
+        }
         for (mode, pairs) in inputs {
             let xs: Vec<T> = pairs.iter().map(|q| q.0).collect();
             let ys: Vec<T> = pairs.iter().map(|q| q.1).collect();
             let (c1, c2) = (build(&xs), build(&ys));
+            let c2: &C = if mode == "same_object" { &c1 } else { &c2 };
             let mut h = H64::new();
-            h.s(cname).s(T::NAME).u(focus as u64).u(p.eps.bits64()).u(p.max_rel.bits64()).u(p.max_ulps as u64);
+            h.s(cname).s(T::NAME).s(mode).u(focus as u64).u(p.eps.bits64()).u(p.max_rel.bits64()).u(p.max_ulps as u64);
             for q in &pairs {
                 h.u(q.0.bits64()).u(q.1.bits64());
             }
@@ -1780,17 +1796,17 @@ where
                     failing_focus = lanes.iter().filter(|b| !**b).count();
                 }
                 let got = guarded(|| match rel {
-                    0 => C::abs_diff_eq(&c1, &c2, p.eps),
-                    1 => C::relative_eq(&c1, &c2, p.eps, p.max_rel),
-                    _ => C::ulps_eq(&c1, &c2, p.eps, p.max_ulps),
+                    0 => C::abs_diff_eq(&c1, c2, p.eps),
+                    1 => C::relative_eq(&c1, c2, p.eps, p.max_rel),
+                    _ => C::ulps_eq(&c1, c2, p.eps, p.max_ulps),
                 });
                 let params = format!("epsilon={:?} max_relative={:?} max_ulps={}", p.eps, p.max_rel, p.max_ulps);
                 // the negated forms (provided by the approx traits, possibly overridden): "not equal"
                 // exactly when some pair of corresponding elements is not equal
                 let got_ne = guarded(|| match rel {
-                    0 => C::abs_diff_ne(&c1, &c2, p.eps),
-                    1 => C::relative_ne(&c1, &c2, p.eps, p.max_rel),
-                    _ => C::ulps_ne(&c1, &c2, p.eps, p.max_ulps),
+                    0 => C::abs_diff_ne(&c1, c2, p.eps),
+                    1 => C::relative_ne(&c1, c2, p.eps, p.max_rel),
+                    _ => C::ulps_ne(&c1, c2, p.eps, p.max_ulps),
                 });
                 match got_ne {
                     Ok(g) if g == !exp => {}
